@@ -335,6 +335,14 @@ macro_rules! spawn_derived {
                                 (Some(value), Some(inner), Some(wakers), Some(loading)) => {
                                     // generate new Future
                                     let owner = inner.read().or_poisoned().owner.clone();
+                                    // if a source has changed since the initial Future was
+                                    // created, the values it has already read are stale. The
+                                    // `already_dirty` test above only sees sources that mark this
+                                    // node dirty (signals); a memo only asks it to check, and the
+                                    // check that has just run is what found the change
+                                    if update_if_necessary {
+                                        initial_fut.take();
+                                    }
                                     let fut = initial_fut.take().unwrap_or_else(|| {
                                         let fut = if $should_track {
                                             owner.with_cleanup(|| {
